@@ -4,7 +4,7 @@ CONSTANTS
   Mode = "mc"
   Faithful = {}
   Tabs <- MCTabs
-  MaxVal = 4
+  MaxVal = 3
   MaxRho = 3
   MaxIter = 2
   MaxK = 2
